@@ -6,7 +6,7 @@ import sys
 import pandas as pd
 
 from mcx import sched
-from mcx.common import (OPS, PRESENTATIONS, cell, isna, lib, make_tokenizer, mkframe, seed, ssj)
+from mcx.common import (frame_rows, OPS, PRESENTATIONS, cell, isna, lib, make_tokenizer, mkframe, seed, ssj)
 from mcx.engine import Layer, run_check
 from mcx.refmodel import masks_for
 
@@ -29,14 +29,15 @@ def w_candset(job):
     pres = PRESENTATIONS[job.get('pres', 0)]
     lvals, rvals = job['L'], job['R']
     sched.install()
-    L, R = frames(lvals, rvals, pres)
+    kk = job.get('keys', 'default')
+    L, R = frames(lvals, rvals, pres, kk=kk)
     viol = []
     nviol = calls = nontrivial = 0
     outs = {}
     for seq in job['seqs']:
         seq = [tuple(p) for p in seq]
         ids = id_scheme('gap', len(seq))
-        C = candset(seq, ids, pres)
+        C = candset(seq, ids, pres, kk)
         for (name, meas, t) in FILTER_CFGS:
             for ae in ((True, False) if name != 'Overlap' else (True,)):
                 for am in (False, True):
@@ -44,7 +45,7 @@ def w_candset(job):
                         ref = make_filter(name, make_tokenizer(['ws', True]), meas, t, ae, am, op)
                         mask = [not ref.filter_pair(lvals[i], rvals[j]) for (i, j) in seq]
                         exp_vals = [tuple(cell(v) for v in row)
-                                    for row, m in zip(C.values.tolist(), mask) if m]
+                                    for row, m in zip(frame_rows(C), mask) if m]
                         exp_idx = [x for x, m in zip(C.index.tolist(), mask) if m]
                         full = (name, meas) in (('Position', 'JACCARD'), ('Overlap', 'OVERLAP')) and ae
                         njs = job['n_jobs'] if full else [1, 2]
@@ -57,7 +58,7 @@ def w_candset(job):
                                 sched.CTL.order = order
                                 out = lib(f.filter_candset, C, 'l_k', 'r_k', L, R, 'lk', 'rk', 's', 's', nj, False)
                                 calls += 1
-                                got_vals = [tuple(cell(v) for v in row) for row in out.values.tolist()]
+                                got_vals = [tuple(cell(v) for v in row) for row in frame_rows(out)]
                                 ok = (got_vals == exp_vals and list(out.columns) == list(C.columns)
                                       and (len(seq) == 0 or out.index.tolist() == exp_idx))
                                 if exp_vals and len(exp_vals) < len(seq):
@@ -232,6 +233,8 @@ def layers(tier):
             jobs.append({'L': lv, 'R': rv, 'seqs': c, 'n_jobs': [1, 2, 3, -1], 'pres': pres, 'orders': True})
     for c in chunks(seqs_of(2, 2), 4):      # duplicate index labels on the candidate set, whatever the seed
         jobs.append({'L': T22[1][0], 'R': T22[1][1], 'seqs': c, 'n_jobs': [1, 2], 'pres': 3})
+    for c in chunks(seqs_of(2, 2), 4):      # all-numeric candidate set (int64 keys beyond 2**53 and a float column)
+        jobs.append({'L': T22[1][0], 'R': T22[1][1], 'seqs': c, 'n_jobs': [1, 2], 'pres': pres, 'keys': 'big'})
     for c in chunks(seqs_of(2, 2), 4):      # NA-backed 'string' columns with pd.NA as missing marker
         jobs.append({'L': T22[0][0], 'R': T22[0][1], 'seqs': c, 'n_jobs': [1, 2], 'pres': 6})
     S = seqs_of(3, 2, maxlen=2 if quick else 4, repeats=False) + [[(i, j) for i in range(3) for j in range(2)]]
